@@ -55,6 +55,10 @@ CHECKS = {
    technique="deviation-bounded exhaustive exploration (stateless DFS with prefix replay, iterated bounds) of environment event schedules against the live in-process DnsService under a paused clock; choice points: client sends, upstream deliveries and fault variants, ticks, upstream query id and retry jitter (hooks)",
    text="For 7 scenarios (1-3 queries in flight, UDP/TCP/UDP-pushed-to-TCP, same and different names) every schedule with at most the stated number of deviations (drop, hold until retransmission, duplicate, foreign id, TC, non-FIFO, TCP frame in two parts, upstream close, id collision, max jitter, delay) is executed to a 130 s virtual horizon; each query must get exactly one reply from the address it was sent to, carrying the answer scripted for its own question, SERVFAIL only when the environment really lost its replies. Plus all listener families x client families x transports, and the pure in_addr conversion over 625 addresses.",
    note="Await-granularity schedules on one worker thread; <=3 queries in flight; 100 ms tick quantum. Harness-side exchange bookkeeping decides when SERVFAIL is acceptable."),
+ "C15": dict(level="exploration", engine="E-NET", design="5/C15",
+   technique="exhaustive enumeration of written route tables (suffix subsets x partitions into routes x types x every route order x every suffix order) each served by a live in-process DnsService with one scripted upstream per forward route, queried with a fixed name set x RD",
+   text="For every written table the rcode seen by the client and which upstream (if any) received the query are compared with an independent longest-whole-label-suffix, ASCII-case-insensitive reference; since every permutation of the same table is generated, permutation invariance is decided too.",
+   note="TCP clients (REFUSED over UDP is the limiter's subject). The same suffix in two routes is don't-care and not generated."),
 }
 
 NOT_YET = {
